@@ -6,6 +6,7 @@ import (
 	"io"
 	"net/http"
 
+	httppkg "github.com/fatedier/frp/pkg/util/http"
 	"github.com/fatedier/frp/verif"
 )
 
@@ -59,3 +60,30 @@ func verif_HTTPProxy_Auth(hp *HTTPProxy, req *http.Request) {
 
 //verif:guarded Listener mu closed
 //verif:sweep-type Listener props=C16 kinds=lock
+
+// https2http plugin, the request handler (C02 "proxying preserves requests":
+// a request is answered by the backend unless it is misdirected): a request that
+// arrived over TLS is refused with 421 exactly when the TLS server name is
+// present and differs from the request's host after both are canonicalised
+// (letter case, port suffix and trailing dot ignored); every other request is
+// handed to the reverse proxy, once.
+//
+//verif:contract ~/pkg/plugin/client.NewHTTPS2HTTPPlugin$2
+//verif:props C02
+//verif:kinds post,pre
+func verif_https2http_handler(w http.ResponseWriter, r *http.Request) {
+	misdirected := false
+	if r.TLS != nil {
+		sni, _ := httppkg.CanonicalHost(r.TLS.ServerName)
+		host, _ := httppkg.CanonicalHost(r.Host)
+		misdirected = sni != "" && sni != host
+	}
+	verif.ResetEvents()
+	verif.CallTarget(w, r)
+	const evFwd = "httputil.ReverseProxy).ServeHTTP"
+	if misdirected {
+		verif.Ensures(!verif.Called(evFwd) && verif.CalledWith("ResponseWriter).WriteHeader", 1, http.StatusMisdirectedRequest), "misdirected_request_is_refused_with_421")
+	} else {
+		verif.Ensures(verif.CallCount(evFwd) == 1 && verif.CalledWith(evFwd, 2, r) && !verif.Called("ResponseWriter).WriteHeader"), "every_other_request_reaches_the_backend_proxy")
+	}
+}
